@@ -179,6 +179,22 @@ CLAIMED = {
         technique="TLA+ memory-access-level model checked by TLC for data races; exported first-use schedules run under the Go race "
                   "detector on fresh instances; recorded results validated by a trace spec",
         design="5/C13", engine="tlc-exhaustive"),
+    "C14": dict(
+        text="spec/Scopes.tla is the link state machine of scopes: trees of scopes/objects/references/one-ofs/lists/maps with colliding "
+             "object IDs, actions ApplySelf(scope) and ApplyNamespace(scope, ns, table) in any order and repeated, the operational "
+             "propagation shaped like the code next to the declarative side (Nearest/Resolve/Lexical, OtherNamespacesUntouched as an action "
+             "property, ValidateRefsIffAllLinked, OrderIndependent, Inline and InlineSameAt, finite Unser on recursive graphs). TLC checks "
+             "them exhaustively over a universe of scope trees (5 shapes + bare recursive objects, up to two reference placements under "
+             "direct/list/map/one-of/inline-object wrappers, two external tables, three namespaces). Every (link state, call) pair is "
+             "replayed on real schemas built through the public constructors: the object each reference is linked to, the "
+             "ValidateReferences verdict per scope, accept/reject/value of model and random inputs, scope vs constructor-built inlined scope "
+             "on Unserialize/Validate/Serialize, recursion chains 50..10000 (thorough 100000) deep; runs of a seeded random driver on bigger "
+             "trees are validated line by line by ScopesTrace.tla.",
+        note=TRUST + "Objects are map-based with string discriminators; chains deeper than 10000 objects only note drift (stack size is a "
+             "resource limit).",
+        technique="TLA+ state machine of namespace application checked exhaustively by TLC; every model state and call replayed into the real "
+                  "code; trace validation of random application sequences",
+        design="5/C14", engine="tlc-exhaustive"),
     "C15": dict(
         text="spec/Compat.tla states the property as a partial specification over an abstract schema AST: MustReject (different base "
              "kind, incompatible element/key/value/property types, undeclared or missing-required property, differing enforced IDs, "
